@@ -17,7 +17,8 @@ RULE = ("one fresh interpreter per configuration = (PYSNARK_BACKEND unset / '' /
         "naming the cause); an unknown name is reported on stdout before any fallback; else the first loadable backend in "
         "registry order. In every successful case backend_name, backend.__name__, get_modulus() (and the Groth16 switch "
         "of libsnark) must be mutually consistent with the registry and the field of that name, all eight interface "
-        "functions must be callable on the selected module, and its fieldinverse must invert modulo the reported order. Non-trivial = a backend ahead of the selected one is "
+        "functions must be callable on the selected module, and its fieldinverse must invert modulo the reported order; child interpreters run under varying PYTHONHASHSEED values and all "
+        "processes with the same pre-imported modules must select the same backend. Non-trivial = a backend ahead of the selected one is "
         "unloadable, or a module was pre-imported; distinct by configuration. quick samples the space, thorough "
         "enumerates it completely.")
 
@@ -103,7 +104,7 @@ def run_case(cfg):
     if load["libsnark"]:
         paths.append(os.path.join(backends.SHIMS, "libsnark_stub"))
     envv = {k: v for k, v in os.environ.items() if k not in ("PYSNARK_BACKEND", "QAPTOOLS_BIN", "PYTHONPATH")}
-    envv.update({"PYTHONPATH": os.pathsep.join(paths) + core.COVPATH, "PYTHONDONTWRITEBYTECODE": "1", "PYTHONHASHSEED": "0",
+    envv.update({"PYTHONPATH": os.pathsep.join(paths) + core.COVPATH, "PYTHONDONTWRITEBYTECODE": "1", "PYTHONHASHSEED": str(cfg["hashseed"]) if "hashseed" in cfg else core.hashseed_for(cfg),
                  "QAPTOOLS_BIN": os.path.join(backends.SHIMS, "qapbin") if load["qaptools"] else "/nonexistent-qaptools-dir"})
     if env is not None:
         envv["PYSNARK_BACKEND"] = env
@@ -189,12 +190,24 @@ def shard(cfgs):
     stats = core.Stats()
     known = core.load_known("C19")
     found = {}
+    by_pre = {}
     for cfg in cfgs:
         try:
             msg, info = run_case(cfg)
         except subprocess.TimeoutExpired:
             stats.inconclusive["timeout"] += 1
             continue
+        if not msg and cfg["pre"] and info.get("selected"):
+            # stage 1 looks at nothing but the pre-imported modules: every process with the same ones (whatever the
+            # environment variable, the loadable backends or the string-hash seed) must end up with the same backend
+            k_ = json.dumps(cfg["pre"])
+            if k_ in by_pre and by_pre[k_][0] != info["selected"]:
+                msg = ("pre-imported %r: backend %r is in use here (PYTHONHASHSEED=%s) but %r in another process with the same "
+                       "pre-imported modules (PYTHONHASHSEED=%s): the choice is not a function of the configuration" % (
+                           cfg["pre"], info["selected"], core.hashseed_for(cfg), by_pre[k_][0], core.hashseed_for(by_pre[k_][1])))
+                cfg = {"pair": [by_pre[k_][1], cfg], "env": cfg["env"], "pre": cfg["pre"], "load": cfg["load"]}
+            else:
+                by_pre.setdefault(k_, (info["selected"], cfg))
         nt = nontrivial(cfg, info)
         labels = ["env:" + ("unset" if cfg["env"] is None else "known" if cfg["env"] in NAMES else "unknown"), "pre:%d" % len(cfg["pre"])]
         stats.case(cfg, nt, labels, sample_cap=2)
@@ -238,6 +251,13 @@ def sample_shard(seed, n_examples):
 
 
 def replay(case):
+    if "pair" in case:
+        (m1, i1), (m2, i2) = run_case(case["pair"][0]), run_case(case["pair"][1])
+        if m1 or m2:
+            return m1 or m2
+        if i1.get("selected") != i2.get("selected"):
+            return "pre-imported %r: backend %r in one process, %r in another" % (case["pre"], i1.get("selected"), i2.get("selected"))
+        return None
     return run_case(case)[0]
 
 
@@ -248,7 +268,14 @@ def run(ctx):
                        "an interactive session is modelled by defining builtins.get_ipython before the runtime is imported (0-1 pre-imported modules)", "registry order is the documented auto-detection order"]
     # the whole configuration space is small enough to enumerate in both tiers (about 20 s on 16 cores)
     cfgs = all_configs()
-    total = core.run_shards("harness.checks.c19", "shard", [dict(cfgs=cfgs[i::16]) for i in range(16)])
+    # configurations with the same pre-imported modules go to one shard (they are compared with each other)
+    groups = {}
+    for c in cfgs:
+        groups.setdefault(json.dumps(c["pre"]), []).append(c)
+    buckets = [[] for _ in range(16)]
+    for g in sorted(groups.values(), key=len, reverse=True):
+        min(buckets, key=len).extend(g)
+    total = core.run_shards("harness.checks.c19", "shard", [dict(cfgs=b) for b in buckets])
     ctx.exhaustive = True
     total.extra["space_size"] = len(all_configs())
     ctx.stats = total
